@@ -349,6 +349,57 @@ Proof.
   exact (all_calls_allowed_sound chain_gen uses_gen all_calls_allowed_gen m order en (k, f) Hm Hv Hin).
 Qed.
 
+(* ------------------------------------------------------------------ callback classes, dereference sites *)
+Lemma find_class3_In : forall cs n mk ms, find_class3 cs n = Some (mk, ms) -> In (n, mk, ms) cs.
+Proof.
+  induction cs as [|[[c mk0] ms0] r IH]; intros n mk ms H; simpl in H; [discriminate|].
+  destruct (String.eqb c n) eqn:E.
+  - inversion H; subst. apply String.eqb_eq in E. subst. left; reflexivity.
+  - right. apply IH; exact H.
+Qed.
+
+(* generic: what the decider says, for every table *)
+Lemma callback_classes_ok_sound : forall u, callback_classes_ok u = true ->
+  (forall k, exists ms, In (dummy_class k, true, ms) (u_callback_classes u) /\ ms <> [] /\
+                        forall f th, In (f, th) ms -> th = true) /\
+  (forall n mk ms, In (n, mk, ms) (u_callback_classes u) -> starts_with "dummy_" n = false ->
+                   mk = false /\ forall f th, In (f, th) ms -> th = false).
+Proof.
+  intros u H. unfold callback_classes_ok in H. apply andb_true_iff in H as [H1 H2]. split.
+  - intro k. rewrite forallb_forall in H1.
+    assert (Hk : In k all_kinds) by (destruct k; simpl; auto). specialize (H1 k Hk).
+    destruct (find_class3 (u_callback_classes u) (dummy_class k)) as [[mk ms]|] eqn:E; [|discriminate].
+    destruct mk; [|discriminate]. apply andb_true_iff in H1 as [Hne Hall].
+    exists ms. split; [apply find_class3_In; exact E|]. split.
+    + destruct ms; [discriminate | discriminate].
+    + intros f th Hin. rewrite forallb_forall in Hall. exact (Hall (f, th) Hin).
+  - intros n mk ms Hin Hnd. rewrite forallb_forall in H2. specialize (H2 (n, mk, ms) Hin). simpl in H2.
+    rewrite Hnd in H2. apply andb_true_iff in H2 as [Hm Hall]. split.
+    + destruct mk; [discriminate | reflexivity].
+    + intros f th Hf. rewrite forallb_forall in Hall. specialize (Hall (f, th) Hf). simpl in Hall.
+      destruct th; [discriminate | reflexivity].
+Qed.
+
+Lemma callback_classes_ok_gen : callback_classes_ok uses_gen = true.
+Proof. vm_compute. reflexivity. Qed.
+
+Theorem dummies_marked_and_throw_proof :
+  (forall k, exists ms, In (dummy_class k, true, ms) (u_callback_classes uses_gen) /\ ms <> [] /\
+                        forall f th, In (f, th) ms -> th = true) /\
+  (forall n mk ms, In (n, mk, ms) (u_callback_classes uses_gen) -> starts_with "dummy_" n = false ->
+                   mk = false /\ forall f th, In (f, th) ms -> th = false).
+Proof. exact (callback_classes_ok_sound uses_gen callback_classes_ok_gen). Qed.
+
+Lemma derefs_ok_gen : derefs_ok uses_gen = true.
+Proof. vm_compute. reflexivity. Qed.
+
+Theorem deref_only_into_callbacks_proof : forall file snippet into_callback,
+  In (file, snippet, into_callback) (u_derefs uses_gen) -> into_callback = true.
+Proof.
+  intros file snippet b Hin. pose proof derefs_ok_gen as H. unfold derefs_ok in H.
+  rewrite forallb_forall in H. exact (H (file, snippet, b) Hin).
+Qed.
+
 (* ------------------------------------------------------------------ regression: the tree before the F13 repair *)
 Lemma find_method_In : forall ms n m, find_method ms n = Some m -> In m ms /\ md_name m = n.
 Proof.
